@@ -213,7 +213,15 @@ def run(case):
         Yc = Y - Y.mean("time")
         X2 = map_struct(lambda a, w: a * w, Xc, W)
         Y2 = Yc * WY
-        mA = fit((Xc, Yc) if two else Xc, _weights=(W, WY) if two else W)
+        # weights are paired with the data BY LABEL: the same weights stored in another order along a dimension are the same weights
+        def other_order(w):
+            return map_struct(lambda a: a.isel({a.dims[0]: slice(None, None, -1)}), w)
+        if case["mseed"] % 2:
+            W_fit, WY_fit = other_order(W), WY.isel({WY.dims[0]: slice(None, None, -1)})
+            cc = (cc[0], cc[1] + "|weights-stored-in-other-order")
+        else:
+            W_fit, WY_fit = W, WY
+        mA = fit((Xc, Yc) if two else Xc, _weights=(W_fit, WY_fit) if two else W_fit)
         mB = fit((X2, Y2) if two else X2)
         if mA is None or mB is None:
             return {"findings": [], "info": {}}
